@@ -155,6 +155,17 @@ def check_refile(res, prop, cm, roles, m, b):
             elif len(bp) != 1 or bp[0].ent.kind != 'NEW' or bp[0].ent.arg != bind.res[1] or \
                     not (is_last_of(bp[0].val, aux) or bp[0].val == add[0].res):     # prev(end()) after the append, or list::emplace's result
                 ok, why = False, 'stored ttl position of the new key is not the appended node'
+    elif len(dls) == 0 and cls == 'UPDATE' and roles.kind == 'slotvec' and same_deadline_skip(seg, roles, aux) is not None:
+        # the path established that the stored deadline already equals the new one and left deadline and ttl entry alone
+        verdict = same_deadline_skip(seg, roles, aux)
+        if verdict == 'last':
+            ok = True        # the entry is the last one of the ttl structure: erase + emplace under the same key would put it back there
+        else:
+            msg = ('G-UNKNOWN ttl re-file skipped for an unchanged deadline depending on the neighbouring entry\'s key (place among equal '
+                   'deadlines not modelled) in %s reached from %s::%s' % (show_site(site_of_seg(seg, m)), cm.name, m.key()))
+            if msg not in res.incomplete:
+                res.incomplete.append(msg)
+            return
     elif len(dls) != 1:
         ok, why = False, 'the entry\'s deadline is written %d times (expected once)' % len(dls)
     else:
@@ -165,6 +176,12 @@ def check_refile(res, prop, cm, roles, m, b):
                 good = [e for e in mv if is_end_of(e.dest, aux) and e.nargs == 3]
                 if not good and not already_last(seg, dl.ent, aux):
                     ok, why = False, 'updated entry is not moved to the back of the ttl list'
+                # the element's stored ttl position after the update: its own node (unchanged, or the iterator that was spliced), or
+                # `std::prev(end())` taken AFTER the splice - taken before it, that is the previous last node (another key's)
+                for bp in [e for e in effs if e.kind == 'BACKPTR' and roles.backptrs.get(e.field) == aux]:
+                    if ok and is_last_of(bp.val, aux) and good and not already_last(seg, dl.ent, aux) and \
+                            seg.effects.index(bp) < seg.effects.index(good[0]):
+                        ok, why = False, 'stored ttl position is set to std::prev(end()) before the node is spliced to the back (it names the previous last node)'
             else:
                 add = [e for e in effs if e.kind == 'AUX_ADD' and e.aux == aux]
                 if len(add) != 1 or add[0].how not in ('emplace_back', 'push_back'):
@@ -196,6 +213,30 @@ def check_refile(res, prop, cm, roles, m, b):
     if not ok:
         V(res, prop, 'R-REFILE-ON-UPDATE', cm, b.where, '%s path: %s' % (cls.lower(), why.split(' %')[0] if why else ''), first_site(dls or effs, seg, m),
           'on %s path [%s]: %s' % (cls, val, why))
+
+
+def same_deadline_skip(seg, roles, aux):
+    """an update path that writes neither deadline nor ttl entry: 'last' if it established stored deadline == new deadline (a term of the
+    call's clock sample) and that the entry is the last of the ttl structure, 'neighbour' if instead it looked at the next entry's key,
+    None if it established no such equality"""
+    if [e for e in seg.effects if e.kind in ('AUX_ADD', 'AUX_DEL', 'AUX_MOVE') and getattr(e, 'aux', None) == aux]:
+        return None
+    dl = getattr(roles, 'deadline', None)
+    same = False
+    for c in seg.conds:
+        raw = c[4]
+        if isinstance(raw, tuple) and len(raw) == 4 and raw[0] == 'cmp' and raw[1] in ('==', '!=') and (raw[1] == '==') == bool(c[5]):
+            for x, y in ((raw[2], raw[3]), (raw[3], raw[2])):
+                if is_ld(x) and x[2][0] == 'fld' and x[2][2] == dl and any(isinstance(t, tuple) and t[:1] == ('now',) for t in lift.subterms(y)):
+                    same = True
+    if not same:
+        return None
+    # only an otherwise complete update qualifies (value stored, recency refreshed): an early return that drops those is reported as before
+    if not seg.effs('VAL') or not (seg.effs('MOVE') or any(c[0] in ('IS_FRONT', 'IS_LAST_USED') and c[2] is True for c in seg.conds)):
+        return None
+    if any(c[0] == 'IS_AUX_LAST' and c[2] is True and c[1][1] == aux for c in seg.conds):
+        return 'last'
+    return 'neighbour'
 
 
 def is_end_of(t, aux):
@@ -586,6 +627,9 @@ def check_write_restarts(res, prop, cm, roles, m, b):
         return
     dls = deadline_effects(seg)
     ok = len(dls) == 1
+    if not dls and cls == 'UPDATE' and roles.kind == 'slotvec' and same_deadline_skip(seg, roles, roles.ttl_struct) is not None:
+        res.ob('R-WRITE-RESTARTS-TTL', ok=True)      # the stored deadline already is the restarted one (established by a comparison on this path)
+        return
     if ok and cls == 'UPDATE':
         e = dls[0].ent
         ok = e.kind == 'FOUND' or (e.kind == 'TTLOF' and e.arg[0] == 'FOUND')
